@@ -1,12 +1,95 @@
 import CTM.Drive.Util
+import CTM.Model.Validate
 open Lean
 
 namespace CTM.Drive.Validate
-open CTM CTM.Drive
+open CTM CTM.Drive CTM.Validate
 
-/-- ops of this module (stub: none yet) -/
-def handle : Handler := fun op _inp =>
+def asName (j : Json) : R Validate.Name := (asStr j).map String.toList
+def jName (n : Validate.Name) : Json := jStr (String.ofList n)
+
+def parseStorage (j : Json) : R Storage := do
+  let kind ← asStr (← field j "kind")
+  if kind == "dense" then
+    let m ← asList ratList (← field j "m")
+    let nCols ← asNat (← field j "nCols")
+    let ch ← asOption (asPair asNat asNat) (fieldD j "chunks" Json.null)
+    return .dense m nCols ch
+  else if kind == "sparse" then
+    let d ← ratList (← field j "data")
+    let ch ← asOption asNat (fieldD j "chunks" Json.null)
+    return .sparse d ch
+  else .error s!"storage kind {kind}"
+
+/-- `f"unmapped_{k}_{timestamp}"` with the timestamp canonicalised to `T` -/
+def placeholderT (k : Nat) : Validate.Name := ("unmapped_" ++ toString k ++ "_T").toList
+
+def jErr (e : VErr) : Json := jObj [("err", jStr e.name)]
+
+def jExcept {α} (f : α → Json) : Except VErr α → Json
+  | .ok a => jObj [("ok", f a)]
+  | .error e => jErr e
+
+def jMinMax (o : Option (Rat × Rat)) : Json := jOpt (jPair jRat jRat) o
+
+def jPlan (p : Plan) : Json :=
+  jObj [("writeNew", jBool p.writeNew),
+        ("genes", jList jName p.genes),
+        ("values", jList (jOpt jRat) p.values),
+        ("dtype", jOpt jStr p.dtype),
+        ("mapping", jOpt (jList (jPair jName jName)) p.mapping),
+        ("nMapped", jNat p.nMapped),
+        ("hasWarnings", jBool p.hasWarnings)]
+
+def parseLookup (j : Json) : R (List (Validate.Name × Validate.Name)) := asList (asPair asName asName) j
+
+def handle : Handler := fun op inp =>
   match op with
+  | "validate.round" => some do
+      let vs ← ratList (← field inp "vals")
+      return jInts (vs.map roundHalfEven)
+  | "validate.chooseDtype" => some do
+      let fb ← asOption asNat (fieldD inp "floatBits" Json.null)
+      let mn ← asRat (← field inp "mn")
+      let mx ← asRat (← field inp "mx")
+      let r := chooseIntDtype fb mn mx
+      return jObj [("dtype", jStr r.1), ("min", jInt r.2.1), ("max", jInt r.2.2)]
+  | "validate.toFloatBits" => some do
+      let p ← asNat (← field inp "bits")
+      let xs ← intList (← field inp "ints")
+      return jList jRat (xs.map (toFloatBits p))
+  | "validate.minmax" => some do
+      let s ← parseStorage (← field inp "storage")
+      return jExcept jMinMax s.minmax
+  | "validate.isIntegers" => some do
+      let s ← parseStorage (← field inp "storage")
+      let eps ← asRat (← field inp "eps")
+      return jBool (isIntegersChunked eps s.readChunks)
+  | "validate.isEnsembl" => some do
+      let ns ← asList asName (← field inp "names")
+      return jList jBool (ns.map isEnsembl)
+  | "validate.mapGenes" => some do
+      let lk ← parseLookup (← field inp "lookup")
+      let start ← asNat (fieldD inp "start" (Json.num 0))
+      let genes ← asList asName (← field inp "genes")
+      return jExcept (fun o => jObj [("mapped", jList jName o.mapped),
+          ("nUnmapped", jNat o.nUnmapped), ("ct", jNat o.ct)])
+        (mapGenes lk placeholderT start genes)
+  | "validate.plan" => some do
+      let cellIds ← asList asName (← field inp "cellIds")
+      let genes ← asList asName (← field inp "genes")
+      let layerIsX ← asBool (← field inp "layerIsX")
+      let roundToInt ← asBool (← field inp "roundToInt")
+      let intDtype ← asBool (← field inp "intDtype")
+      let fb ← asOption asNat (fieldD inp "floatBits" Json.null)
+      let storage ← parseStorage (← field inp "storage")
+      let eps ← asRat (← field inp "eps")
+      let em ← asOption asRat (fieldD inp "expectedMax" Json.null)
+      let lk ← parseLookup (← field inp "lookup")
+      let start ← asNat (fieldD inp "start" (Json.num 0))
+      let i : Input := { cellIds, genes, layerIsX, roundToInt, intDtype, floatBits := fb,
+                         storage, eps, expectedMax := em, lookup := lk, start }
+      return jExcept jPlan (validate placeholderT i)
   | _ => none
 
 end CTM.Drive.Validate
